@@ -560,6 +560,26 @@ impl<'a> VisitMut for Rewriter<'a> {
     }
 
     fn visit_expr_closure_mut(&mut self, c: &mut syn::ExprClosure) {
+        // R18: a destructuring closure parameter `|(a, b)| body` becomes `|vx_pN| { let (a, b) = vx_pN; body }`
+        {
+            let mut lets: Vec<syn::Stmt> = vec![];
+            let mut k = 0;
+            for p in c.inputs.iter_mut() {
+                let is_pattern = matches!(p, syn::Pat::Tuple(_) | syn::Pat::TupleStruct(_) | syn::Pat::Struct(_) | syn::Pat::Reference(_));
+                if is_pattern {
+                    let id = syn::Ident::new(&format!("vx_p{}", k), Span::call_site());
+                    let pat = p.clone();
+                    lets.push(syn::parse_quote!(let #pat = #id;));
+                    *p = syn::parse_quote!(#id);
+                    self.rules.insert("R18".into());
+                }
+                k += 1;
+            }
+            if !lets.is_empty() {
+                let body = (*c.body).clone();
+                c.body = Box::new(syn::parse_quote!({ #(#lets)* #body }));
+            }
+        }
         // R12: a wildcard closure parameter `_` becomes a fresh unused identifier (Verus accepts only variables there)
         let mut n = 0;
         for p in c.inputs.iter_mut() {
@@ -786,14 +806,25 @@ impl<'a> Annotator<'a> {
 
 impl<'a> VisitMut for Annotator<'a> {
     fn visit_expr_closure_mut(&mut self, c: &mut syn::ExprClosure) {
-        // closures are numbered in source order; loops inside closures are numbered too
+        // closures are numbered in source order; a contract with `match <text>` is attached to the first closure whose
+        // body contains that token text instead (ordinal-independent anchor)
         let k = self.closure_counter;
         self.closure_counter += 1;
-        let has = self.contract.map(|ct| ct.closures.contains_key(&k)).unwrap_or(false);
-        if has {
-            self.used_closures.insert(k);
-            let id = syn::Ident::new(&format!("vx_closure_{}_{}", self.fn_idx, k), Span::call_site());
-            c.attrs.push(syn::parse_quote!(#[#id]));
+        let body_txt = norm_tokens(&c.body.to_token_stream());
+        let mut chosen: Option<usize> = None;
+        if let Some(ct) = self.contract {
+            for (id, cc) in ct.closures.iter() {
+                if self.used_closures.contains(id) { continue; }
+                match &cc.match_text {
+                    Some(t) => { if body_txt.contains(t.as_str()) { chosen = Some(*id); break; } }
+                    None => { if *id == k { chosen = Some(*id); break; } }
+                }
+            }
+        }
+        if let Some(id) = chosen {
+            self.used_closures.insert(id);
+            let idn = syn::Ident::new(&format!("vx_closure_{}_{}", self.fn_idx, id), Span::call_site());
+            c.attrs.push(syn::parse_quote!(#[#idn]));
             self.rules.insert("R5".into());
         }
         visit_mut::visit_expr_closure_mut(self, c);
@@ -1017,7 +1048,8 @@ fn process_fn_common(
         }
         for k in c.closures.keys() {
             if !an.used_closures.contains(k) && !external_body {
-                die(format!("lost anchor: {} has no closure #{}", key, k));
+                // like a vanished loop: the closure contract is not emitted; pre/postconditions decide
+                dropped_loops.push(format!("{}: closure #{} no longer exists (its contract was not attached)", key, k));
             }
         }
         for (i, cw) in c.calls.iter().enumerate() {
